@@ -211,10 +211,8 @@ func c18Hostile(r *hx.Rng, s string) string {
 
 func c18Norm(s string) (out hx.Sx, inst hx.Sx, okv bool, str string) {
 	o, err := benchseries.NormalizeDateString(s)
-	if err != nil {
-		return hx.L(), hx.L(), false, ""
-	}
-	// the instant according to the time package called directly
+	// the instant according to the time package called directly (whether or not
+	// NormalizeDateString accepts the text)
 	in := s
 	if len(s) == 15 && s[8] == 'T' {
 		all := true
@@ -227,11 +225,58 @@ func c18Norm(s string) (out hx.Sx, inst hx.Sx, okv bool, str string) {
 			in = s[0:4] + "-" + s[4:6] + "-" + s[6:11] + ":" + s[11:13] + ":" + s[13:15] + "+00:00"
 		}
 	}
-	t, err2 := time.Parse(time.RFC3339Nano, in)
-	if err2 != nil {
-		return hx.L(hx.S(o)), hx.L(), true, o
+	inst = hx.L()
+	if t, err2 := time.Parse(time.RFC3339Nano, in); err2 == nil {
+		inst = hx.L(hx.Z(t.Unix()), hx.I(t.Nanosecond()))
 	}
-	return hx.L(hx.S(o)), hx.L(hx.Z(t.Unix()), hx.I(t.Nanosecond())), true, o
+	if err != nil {
+		return hx.L(), inst, false, ""
+	}
+	return hx.L(hx.S(o)), inst, true, o
+}
+
+// the two ends of the four-digit-year range: a zone offset moves the instant
+// of a four-digit-year text into year 10000 or year -1; paired with texts on
+// the other side of the end, with the same instant in another zone, and with
+// ordinary stamps
+func c18GenDateEnds(o *hx.Out, r *hx.Rng, n int) {
+	c18DatePair(o, "9999-12-31T23:00:00-05:00", "9999-12-31T23:00:00Z", "range-end-witness")
+	c18DatePair(o, "0000-01-01T00:30:00+01:00", "0000-01-01T00:00:00Z", "range-end-witness")
+	c18DatePair(o, "9999-12-31T23:00:00-05:00", "9999-12-31T22:00:00-06:00", "range-end-witness")
+	for k := 0; k < n; k++ {
+		mk := func(high bool) string {
+			h, mi, sec := r.Intn(24), r.Intn(60), r.Intn(60)
+			zh, zm := r.Intn(15), []int{0, 30, 45, 59}[r.Intn(4)]
+			frac := []string{"", "", ".5", ".999999999", ",000000001"}[r.Intn(5)]
+			if high {
+				d := 31 - r.Intn(2)
+				return fmt.Sprintf("9999-12-%02dT%02d:%02d:%02d%s-%02d:%02d", d, h, mi, sec, frac, zh, zm)
+			}
+			d := 1 + r.Intn(2)
+			return fmt.Sprintf("0000-01-%02dT%02d:%02d:%02d%s+%02d:%02d", d, h, mi, sec, frac, zh, zm)
+		}
+		high := r.Bool()
+		s1 := mk(high)
+		var s2 string
+		switch r.Intn(4) {
+		case 0:
+			s2 = mk(high)
+		case 1:
+			s2, _, _, _ = c18RandStamp(r)
+		case 2:
+			if high {
+				s2 = fmt.Sprintf("9999-12-31T%02d:%02d:%02dZ", r.Intn(24), r.Intn(60), r.Intn(60))
+			} else {
+				s2 = fmt.Sprintf("00000101T%02d%02d%02d", r.Intn(24), r.Intn(60), r.Intn(60))
+			}
+		default:
+			s2 = mk(!high)
+		}
+		if r.Bool() {
+			s1, s2 = s2, s1
+		}
+		c18DatePair(o, s1, s2, "range-end")
+	}
 }
 
 func c18DatePair(o *hx.Out, s1, s2 string, kind string) {
@@ -662,6 +707,26 @@ func c18GenWorld(r *hx.Rng) c18World {
 	return w
 }
 
+// a world outside the well-formed domain: a generated world whose mutation
+// (a-g above) took effect; the mutation touches one result / one experiment of
+// one table, so the other tables, units and series points stay well-formed
+func c18GenIllWorld(r *hx.Rng) c18World {
+	var w c18World
+	for try := 0; try < 40; try++ {
+		w = c18GenWorld(r)
+		if w.Mut == "" || strings.HasPrefix(w.Mut, "f:") {
+			continue
+		}
+		fl, _ := c18Flatten(w.Results)
+		wa, wb, wc, wd, wan := c18WF(fl)
+		_ = wa
+		if !(wan && wb && wc && wd) {
+			return w
+		}
+	}
+	return w
+}
+
 type c18Flat struct {
 	Unit, Table, Bench, Exp, Ser, Role, NH, DH string
 	Val                                       float64
@@ -835,16 +900,16 @@ func c18SeriesCase(o *hx.Out, r *hx.Rng, w c18World, norders int) {
 	wa, wb, wc, wd, wan := c18WF(flat)
 	var tags []string
 	if !wan {
-		tags = append(tags, "c18_illformed_hash_two_stamps")
+		tags = append(tags, "c18_series_hash_two_stamps")
 	}
 	if !wb {
-		tags = append(tags, "c18_illformed_point_two_hash_pairs")
+		tags = append(tags, "c18_series_point_two_hash_pairs")
 	}
 	if !wc {
-		tags = append(tags, "c18_illformed_trial_two_baseline_hashes")
+		tags = append(tags, "c18_series_trial_two_baseline_hashes")
 	}
 	if !wd {
-		tags = append(tags, "c18_illformed_equal_dates")
+		tags = append(tags, "c18_series_same_instant_two_experiments")
 	}
 	wf := wan && wb && wc && wd
 	// summaries: a small resample count keeps the recorded Intn streams short
@@ -946,6 +1011,9 @@ func c18SeriesCase(o *hx.Out, r *hx.Rng, w c18World, norders int) {
 	if !wf && len(distinct) > 2 {
 		o.Count("series-illformed-observed-order-dependent")
 	}
+	for _, t := range tags {
+		o.Count("series-finding-input:" + t)
+	}
 	if wf && len(distinct) > 2 {
 		o.Count("series-wf-raw-outputs-differ(unsorted denominator-less cells)")
 	}
@@ -973,6 +1041,38 @@ type c18Boot struct {
 	Conf float64   `json:"confidence"`
 	N    int       `json:"n"`
 	Kind string    `json:"kind"`
+}
+
+// input characterisation of finding C18_median_sum_overflow (the Coq side
+// recomputes it: RunC18.median_overflows): positive samples, and median's sum
+// a+b overflows for a sample of even size (its largest value doubled is +Inf)
+// or for an even resample count (the largest attainable ratio doubled is +Inf)
+func c18MedianOverflows(nu, de []float64, n int) bool {
+	if len(nu) == 0 || len(de) == 0 {
+		return false
+	}
+	mx := func(v []float64) float64 {
+		m := v[0]
+		for _, x := range v {
+			m = math.Max(m, x)
+		}
+		return m
+	}
+	mn := func(v []float64) float64 {
+		m := v[0]
+		for _, x := range v {
+			m = math.Min(m, x)
+		}
+		return m
+	}
+	for _, x := range append(append([]float64{}, nu...), de...) {
+		if !(x > 0) || math.IsInf(x, 0) {
+			return false
+		}
+	}
+	hi := mx(nu) / mn(de)
+	return (len(nu)%2 == 0 && math.IsInf(mx(nu)+mx(nu), 0)) || (len(de)%2 == 0 && math.IsInf(mx(de)+mx(de), 0)) ||
+		(n%2 == 0 && !math.IsInf(hi, 0) && math.IsInf(hi+hi, 0))
 }
 
 func c18Ulps(a, b float64) float64 {
@@ -1065,6 +1165,10 @@ func c18BootCase(o *hx.Out, bc c18Boot) {
 	if len(tags) > 0 {
 		o.Count("boot-flat-bracket")
 	}
+	if c18MedianOverflows(bc.Nu, bc.De, bc.N) {
+		tags = append(tags, "c18_median_sum_overflow")
+		o.Count("boot-median-sum-overflows")
+	}
 	o.Add(hx.L(hx.I(1), c18F64s(bc.Nu), c18F64s(bc.De), hx.F64(bc.Conf), hx.I(bc.N), hx.Z(seed), hx.List(stream),
 		pub, c18F64s(ratios), hookSum, hx.Bool(pub.Text() == pub2.Text())),
 		map[string]interface{}{"kind": "bootstrap", "case": bc}, fmt.Sprintf("b:%v|%v|%v|%d", bc.Nu, bc.De, bc.Conf, bc.N), len(bc.Nu) > 1, tags...)
@@ -1100,7 +1204,18 @@ func c18GenBoot(r *hx.Rng, bigN bool) c18Boot {
 		}
 		return v
 	}
-	switch r.Intn(7) {
+	switch r.Intn(8) {
+	case 7:
+		// positive samples at the ends of the binary64 range: values above
+		// MaxFloat64/2 (the sum inside median overflows for an even sample size:
+		// finding C18_median_sum_overflow), quotients that overflow or underflow,
+		// subnormal values
+		bc.Kind = "extreme-positive"
+		big := []float64{math.MaxFloat64, math.MaxFloat64 / 2, math.Nextafter(math.MaxFloat64/2, math.Inf(1)), 1e308, 9e307, 8e307, 1e300}
+		small := []float64{5e-324, 1e-320, 2.2250738585072014e-308, 1e-300, 1, 3}
+		pool := [][]float64{big, small, append(append([]float64{}, big...), small...), {1, 2, 1e308, math.MaxFloat64}}
+		pn, pd := pool[r.Intn(len(pool))], pool[r.Intn(len(pool))]
+		bc.Nu, bc.De = gen(ln, func() float64 { return pn[r.Intn(len(pn))] }), gen(ld, func() float64 { return pd[r.Intn(len(pd))] })
 	case 0:
 		bc.Kind = "constant"
 		a, b := c18Val(r), c18Val(r)
@@ -1262,6 +1377,12 @@ func c18MultiCase(o *hx.Out, m c18Multi) {
 	var tags []string
 	if tagged {
 		tags = append(tags, "c18_percentile_between_equal_ratios")
+	}
+	for _, c := range m.Cells {
+		if c18MedianOverflows(c.Nu, c.De, m.N) {
+			tags = append(tags, "c18_median_sum_overflow")
+			break
+		}
 	}
 	o.Count("multi-kind:" + m.Kind)
 	o.Count("multi-outcome:" + kind)
@@ -1629,7 +1750,7 @@ func c18GenMultiUnit(r *hx.Rng, tiny bool) c18World {
 // ---------------------------------------------------------------- entry
 
 func genC18(o *hx.Out, r *hx.Rng, tier string, replay string) error {
-	o.Rule = "command: the REAL cmd/benchseries binary (go build of the module under test) on 1-3 generated files that carry BOTH the default key of every option and an alternative key (alt_stamp alt_run role alt_nh alt_dh; compare values Tip Base Exp Ctl), the selected key carrying a well-formed world and the other one a decoy world, with ONE option non-default at a time: -series -experiment -compare -numerator -denominator -numerator-hash -denominator-hash, both hash flags naming one key, 2-7 of them together, -filter (.unit:U / key:value / .name:N), -confidence (samples of 4-6 values), each CSV switch once (-csv=false -delta -change -values=false -change -threshold=0.5 on exact metrics -boring -log=false), input on stdin (no path / -), -ji with the JSON of an earlier run; flags spelled -f=v, -f v, --f=v; observed: exit status, the -jo JSON (axes, hash pairs, per cell date and summary), stdout; reference: the library with the options the flags are documented to set (both policies through the kind-2 checks; REPLACE with the flag's confidence and 1000 bootstraps for the summaries, JSON bytes and CSV bytes); plus the library alone with BuilderOptions.Table in {none, goos, goarch+goos, builder_id+goos, goos+pad, pad} and Ignore lists (no flag sets them). incremental-builder: ONE Builder: Add a part of a well-formed result set, AllComparisonSeries + AddSummaries, Add the rest (more values for trials already summarised / a further experiment for summarised series points), build and summarise again, under both policies; the second result is compared with FRESH builders over the whole set. series-from-files: 2-3 files read through one benchfmt.Files / Builder.AddFiles in every file order; the builder keys goos runstamp ser role nh dh are file-configuration lines in a shuffled header of 4-7 keys (plus padding keys); every later file omits its own subset, so its results have the empty value there. streams. multi-cell: a ComparisonSeries with 2-9 cells (always one pair with swapped numerator/denominator samples, identical cells, cells sharing only one sample, two series points sharing one baseline) summarised by ONE AddSummaries call, each cell compared with the same samples summarised alone. shared-baseline: DUPE_COMBINE aliasing class (one trial, several hashes, one baseline, each point re-measured by a later experiment). dates: pairs of timestamp texts in both accepted layouts (offsets, fractions incl. >9 digits and ',' separator, calendar edge days, years 0..9999), pairs denoting one instant, neighbouring instants, hostile mutations. bootstrap: samples (constant, near-constant, few-valued, positive, mixed-sign, zero denominators) x N in {1,2,3,50,500,1000,small random} x confidence in {0.5,0.9,0.95,0.99,edge,random}, through Builder.Add/AllComparisonSeries/AddSummaries and the tagged hooks, math/rand Intn stream recorded for replay. series: result sets over <=2 units x <=2 tables x <=3 benchmarks x <=4 experiments x <=4 hashes/series stamps (stamps in mixed layouts), well-formed worlds plus mutations a-g leaving the well-formed domain, each added in N random orders under DUPE_REPLACE and DUPE_COMBINE; AddSummaries (confidence in {0.5,0.9,0.95,0.99}, N in {1,2,3,5,8}) on the series of every run, each cell compared with the same multiset summarised as one experiment, Intn stream recorded per cell. interleaved-experiments: every series point measured by 2-3 experiments whose numerator and denominator values interleave (COMBINE must return the sorted multiset; summaries equal across add orders). multi-value-unit-lists: results carrying 2-3 values, same table keys, partially overlapping unit lists (ns/op B/op | ns/op MB/s | B/op ns/op ...) adjacent in the add order, 4-result sets in ALL 24 orders. spellings-of-one-instant: every result spells the series stamp of its hash in its own way (compact, Z, +00:00 / -00:00 with fractions .000 .500000 ,5 and >9 digits, another offset), instants differing only in the fraction; date pairs of such spellings (same instant, neighbours). non-trivial = more than 3 measurements / a date accepted / a sample of more than one value"
+	o.Rule = "command: the REAL cmd/benchseries binary (go build of the module under test) on 1-3 generated files that carry BOTH the default key of every option and an alternative key (alt_stamp alt_run role alt_nh alt_dh; compare values Tip Base Exp Ctl), the selected key carrying a well-formed world and the other one a decoy world, with ONE option non-default at a time: -series -experiment -compare -numerator -denominator -numerator-hash -denominator-hash, both hash flags naming one key, 2-7 of them together, -filter (.unit:U / key:value / .name:N), -confidence (samples of 4-6 values), each CSV switch once (-csv=false -delta -change -values=false -change -threshold=0.5 on exact metrics -boring -log=false), input on stdin (no path / -), -ji with the JSON of an earlier run; flags spelled -f=v, -f v, --f=v; observed: exit status, the -jo JSON (axes, hash pairs, per cell date and summary), stdout; reference: the library with the options the flags are documented to set (both policies through the kind-2 checks; REPLACE with the flag's confidence and 1000 bootstraps for the summaries, JSON bytes and CSV bytes); plus the library alone with BuilderOptions.Table in {none, goos, goarch+goos, builder_id+goos, goos+pad, pad} and Ignore lists (no flag sets them). incremental-builder: ONE Builder: Add a part of a well-formed result set, AllComparisonSeries + AddSummaries, Add the rest (more values for trials already summarised / a further experiment for summarised series points), build and summarise again, under both policies; the second result is compared with FRESH builders over the whole set. series-from-files: 2-3 files read through one benchfmt.Files / Builder.AddFiles in every file order; the builder keys goos runstamp ser role nh dh are file-configuration lines in a shuffled header of 4-7 keys (plus padding keys); every later file omits its own subset, so its results have the empty value there. streams. multi-cell: a ComparisonSeries with 2-9 cells (always one pair with swapped numerator/denominator samples, identical cells, cells sharing only one sample, two series points sharing one baseline) summarised by ONE AddSummaries call, each cell compared with the same samples summarised alone. shared-baseline: DUPE_COMBINE aliasing class (one trial, several hashes, one baseline, each point re-measured by a later experiment). dates: pairs of timestamp texts in both accepted layouts (offsets, fractions incl. >9 digits and ',' separator, calendar edge days, years 0..9999), pairs denoting one instant, neighbouring instants, hostile mutations; range-end: four-digit-year texts whose zone offset moves the instant into year 10000 or year -1, paired with texts on either side of the end. bootstrap: samples (constant, near-constant, few-valued, positive, mixed-sign, zero denominators, extreme-positive: values above MaxFloat64/2, subnormal values, overflowing / underflowing quotients) x N in {1,2,3,50,500,1000,small random} x confidence in {0.5,0.9,0.95,0.99,edge,random}, through Builder.Add/AllComparisonSeries/AddSummaries and the tagged hooks, math/rand Intn stream recorded for replay. series: result sets over <=2 units x <=2 tables x <=3 benchmarks x <=4 experiments x <=4 hashes/series stamps (stamps in mixed layouts), well-formed worlds plus mutations a-g leaving the well-formed domain (judged in full: prop_ok compares them with spec_series too; the four series findings excuse only the places of Model/SeriesFindings.v), ill-formed: worlds whose mutation took effect, the five witnesses of the findings in every add order, alone and next to a well-formed table; each added in N random orders under DUPE_REPLACE and DUPE_COMBINE; AddSummaries (confidence in {0.5,0.9,0.95,0.99}, N in {1,2,3,5,8}) on the series of every run, each cell compared with the same multiset summarised as one experiment, Intn stream recorded per cell. interleaved-experiments: every series point measured by 2-3 experiments whose numerator and denominator values interleave (COMBINE must return the sorted multiset; summaries equal across add orders). multi-value-unit-lists: results carrying 2-3 values, same table keys, partially overlapping unit lists (ns/op B/op | ns/op MB/s | B/op ns/op ...) adjacent in the add order, 4-result sets in ALL 24 orders. spellings-of-one-instant: every result spells the series stamp of its hash in its own way (compact, Z, +00:00 / -00:00 with fractions .000 .500000 ,5 and >9 digits, another offset), instants differing only in the fraction; date pairs of such spellings (same instant, neighbours). non-trivial = more than 3 measurements / a date accepted / a sample of more than one value"
 	// the code under test reports hash-pair mismatches on os.Stderr directly
 	if devnull, err := os.OpenFile(os.DevNull, os.O_WRONLY, 0); err == nil {
 		saved := os.Stderr
@@ -1638,14 +1759,17 @@ func genC18(o *hx.Out, r *hx.Rng, tier string, replay string) error {
 	}
 	nd, nb, nbig, nsr, norders := 1500, 400, 12, 90, 20
 	nmulti, nshared := 150, 25
+	nill := 30
 	nspell, nsw, nil_, nmu, nmutiny := 400, 25, 25, 20, 12
 	if tier == "thorough" {
 		nd, nb, nbig, nsr, norders = 40000, 6000, 150, 1500, 20
 		nmulti, nshared = 3000, 400
+		nill = 600
 		nspell, nsw, nil_, nmu, nmutiny = 10000, 400, 400, 300, 150
 	}
 	c18GenDates(o, r.Split(), nd)
 	c18GenDateSpellings(o, r.Split(), nspell)
+	c18GenDateEnds(o, r.Split(), nd/10)
 	rb := r.Split()
 	for i := 0; i < nb; i++ {
 		c18BootCase(o, c18GenBoot(rb, false))
@@ -1657,6 +1781,9 @@ func genC18(o *hx.Out, r *hx.Rng, tier string, replay string) error {
 	c18BootCase(o, c18Boot{Nu: []float64{1, 2, 3}, De: []float64{3, 4, 5}, Conf: 0.001, N: 2, Kind: "witness-low-above-centre"})
 	c18BootCase(o, c18Boot{Nu: []float64{1, 2, 3}, De: []float64{3, 4, 5}, Conf: 0.2, N: 3, Kind: "witness-low-above-centre"})
 	c18BootCase(o, c18Boot{Nu: []float64{1, 1, 1}, De: []float64{3, 3, 3}, Conf: 0.95, N: 250, Kind: "witness-constant"})
+	c18BootCase(o, c18Boot{Nu: []float64{math.MaxFloat64, math.MaxFloat64}, De: []float64{1}, Conf: 0.95, N: 1, Kind: "witness-median-sum-overflow"})
+	c18BootCase(o, c18Boot{Nu: []float64{1, 2, 3}, De: []float64{1e308, 1e308}, Conf: 0.9, N: 3, Kind: "witness-median-sum-overflow"})
+	c18BootCase(o, c18Boot{Nu: []float64{1e308, 1.2e308, 1.1e308}, De: []float64{1, 1, 1}, Conf: 0.5, N: 4, Kind: "witness-median-sum-overflow"})
 	rm := r.Split()
 	for i := 0; i < nmulti; i++ {
 		c18MultiCase(o, c18GenMulti(rm))
@@ -1680,6 +1807,43 @@ func genC18(o *hx.Out, r *hx.Rng, tier string, replay string) error {
 	}
 	for i := 0; i < nmutiny; i++ {
 		c18SeriesCase(o, rg, c18GenMultiUnit(rg, true), -1)
+	}
+	// result sets OUTSIDE the well-formed domain (the property quantifies over
+	// them too): judged against the specification in full by prop_ok, and up to
+	// the places of the recorded findings by known_ok (Model/SeriesFindings.v)
+	rill := r.Split()
+	for i := 0; i < nill; i++ {
+		c18SeriesCase(o, rill, c18GenIllWorld(rill), norders)
+	}
+	// the auditor's witnesses of the four findings, every add order (the map
+	// order varies from run to run by itself); a second, well-formed table next
+	// to the ill-formed one stays judged in full
+	{
+		s1, s2 := "2022-01-01T00:00:00Z", "2022-01-02T00:00:00Z"
+		e1, e2, e1c := "2022-02-01T00:00:00Z", "2022-03-01T00:00:00Z", "20220201T000000"
+		mk := func(table, exp, ser, role, nh, dh string, v float64) c18Result {
+			return c18Result{Table: table, Bench: "A", Exp: exp, Ser: ser, Role: role, NH: nh, DH: dh, Units: []string{"sec/op"}, Vals: []float64{v}}
+		}
+		wits := []struct {
+			name string
+			rs   []c18Result
+		}{
+			{"witness-A-hash-two-stamps", []c18Result{mk("", e1, s1, "den", "h", "d", 10), mk("", e1, s1, "num", "h", "d", 1), mk("", e2, s2, "den", "h", "d", 20), mk("", e2, s2, "num", "h", "d", 2)}},
+			{"witness-B-two-commits-one-time", []c18Result{mk("", e1, s1, "den", "", "d", 10), mk("", e1, s1, "num", "h1", "d", 1), mk("", e1, s1, "num", "h2", "d", 2)}},
+			{"witness-B-rerun-without-baseline", []c18Result{mk("", e1, s1, "den", "h", "d", 10), mk("", e1, s1, "num", "h", "d", 1), mk("", e2, s1, "num", "h", "d", 2)}},
+			{"witness-C-trial-two-baseline-hashes", []c18Result{mk("", e1, s1, "den", "h", "d0", 10), mk("", e1, s1, "den", "h", "dY", 11), mk("", e1, s1, "num", "h", "d0", 1)}},
+			{"witness-D-runstamp-in-both-formats", []c18Result{mk("", e1, s1, "den", "h", "d", 10), mk("", e1, s1, "num", "h", "d", 1), mk("", e1c, s1, "den", "h", "d", 20), mk("", e1c, s1, "num", "h", "d", 2)}},
+		}
+		for _, wt := range wits {
+			c18SeriesCase(o, rill, c18World{Results: wt.rs, Mut: wt.name}, -1)
+			// the same next to a well-formed table "linux" (hash k, its own stamps)
+			both := append([]c18Result{}, wt.rs...)
+			for i := range both {
+				both[i].Table = "darwin"
+			}
+			both = append(both, mk("linux", e1, s2, "den", "k", "dk", 30), mk("linux", e1, s2, "num", "k", "dk", 3))
+			c18SeriesCase(o, rill, c18World{Results: both, Mut: wt.name + "+well-formed-table"}, norders)
+		}
 	}
 	// combine with a denominator-less trial (nil dereference before the repair)
 	c18SeriesCase(o, rs, c18World{Results: []c18Result{
